@@ -246,6 +246,54 @@ def make_dc_objective(order):
     return fn
 
 
+def _net_oos():
+    """two gens, the one with the lower index out of service; both carry a cost entry"""
+    if "oos" not in _NET:
+        net = pp.create_empty_network()
+        b0, b1, b2 = (pp.create_bus(net, 20., min_vm_pu=0.9, max_vm_pu=1.1) for _ in range(3))
+        pp.create_ext_grid(net, b0, min_p_mw=-10, max_p_mw=10, min_q_mvar=-10, max_q_mvar=10)
+        pp.create_line_from_parameters(net, b0, b1, 1., 0.1, 0.1, 10, 1., max_loading_percent=100)
+        pp.create_line_from_parameters(net, b1, b2, 1., 0.1, 0.1, 10, 1., max_loading_percent=100)
+        pp.create_gen(net, b1, 0.5, controllable=True, min_p_mw=0, max_p_mw=1, min_q_mvar=-1, max_q_mvar=1, in_service=False)
+        pp.create_gen(net, b2, 0.5, controllable=True, min_p_mw=0, max_p_mw=1, min_q_mvar=-1, max_q_mvar=1)
+        pp.create_load(net, b2, 1., 0.3)
+        pp.create_poly_cost(net, 0, "ext_grid", cp1_eur_per_mw=1.)
+        pp.runopp(net, numba=False)
+        net.poly_cost = net.poly_cost.iloc[0:0]
+        _NET["oos"] = net
+    return _NET["oos"]
+
+
+def make_out_of_service(first):
+    """a cost entry of an out-of-service element contributes nothing and does not touch the cost of any other element, in whatever order the
+    entries stand in net.poly_cost"""
+    def fn(ctx):
+        mo = ctx.load("pandapower.opf.make_objective")
+        tc = ctx.load("pandapower.pypower.totcost")
+        net = copy.deepcopy(_net_oos())
+        ppci = {"gen": ctx.obj(net._ppc_opf["gen"])}
+        ngen = len(net._ppc_opf["gen"])
+        Pg = ctx.array([ctx.var(f"Pg{i}", -5., 5.) for i in range(ngen)])
+        c = {g: {"cp1_eur_per_mw": ctx.var(f"cp1_gen{g}", -10., 10.), "cp0_eur": ctx.var(f"cp0_gen{g}", -10., 10.)} for g in (0, 1)}
+        ceg = {"cp1_eur_per_mw": ctx.var("cp1_ext_grid", -10., 10.), "cp0_eur": ctx.var("cp0_ext_grid", -10., 10.)}
+        rows = [dict(element=g, et="gen", cp2_eur_per_mw2=0., cq0_eur=0., cq1_eur_per_mvar=0., cq2_eur_per_mvar2=0., **c[g]) for g in ((0, 1) if first == "out_of_service_first" else (1, 0))]
+        rows.append(dict(element=0, et="ext_grid", cp2_eur_per_mw2=0., cq0_eur=0., cq1_eur_per_mvar=0., cq2_eur_per_mvar2=0., **ceg))
+        net.poly_cost = pd.DataFrame(rows, columns=list(net.poly_cost.columns)).astype(object if ctx.symbolic else float, errors="ignore")
+        net.poly_cost["element"] = net.poly_cost["element"].astype(int)
+        net.poly_cost["et"] = [r["et"] for r in rows]
+        net.pwl_cost = net.pwl_cost.iloc[0:0]
+        mo._make_objective(ppci, net)
+        tot = tc.totcost(ppci["gencost"], Pg)
+        total = 0.0
+        for t in tot:
+            total = total + t
+        g1, geg = mo._get_gen_index(net, "gen", 1), mo._get_gen_index(net, "ext_grid", 0)
+        ctx.true("out_of_service_element_has_no_generator_row", mo._get_gen_index(net, "gen", 0) is None)
+        want = c[1]["cp1_eur_per_mw"] * Pg[g1] + c[1]["cp0_eur"] + ceg["cp1_eur_per_mw"] * Pg[geg] + ceg["cp0_eur"]
+        ctx.eq("objective_is_the_cost_of_the_elements_in_service", total, want)
+    return fn
+
+
 def instances(tier):
     out = []
     for et in ETS:
@@ -258,6 +306,8 @@ def instances(tier):
     for a, b in [("gen", "load"), ("sgen", "ext_grid"), ("storage", "gen")]:
         out.append(Inst(f"mixed_pwl_{a}_poly_{b}", make_fn([("pwl", a, "2p"), ("poly", b, "lin")]), nvars=26, samples=2,
                         meta=dict(kind="mixed", pwl=a, poly=b)))
+    for first in ("out_of_service_first", "out_of_service_last"):
+        out.append(Inst(f"cost_of_out_of_service_gen_{first}", make_out_of_service(first), nvars=16, samples=2, meta=dict(kind="poly", scenario=first)))
     for nm, order in (("poly_rows_first", ("lin", "quad", "pwl")), ("pwl_row_first", ("pwl", "lin", "quad")), ("pwl_between", ("quad", "pwl", "lin"))):
         out.append(Inst(f"dc_opf_objective_{nm}", make_dc_objective(order), nvars=20, samples=2, meta=dict(part="DC OPF objective (dcopf_solver)", gencost_rows=list(order))))
     if tier == "thorough":
